@@ -136,4 +136,31 @@ theorem filter_component_wiring :
     Gen.Flow.wiring.lookup "MassFunction.filter" = some Spec.Wiring.filter ∧
     Gen.Flow.wiring.lookup "MassFunction.normalised_filter" = some Spec.Wiring.normalisedFilter := by decide
 
+/-! ## σ(R) is non-increasing in R (Gaussian filter: for every non-negative spectrum) -/
+section GaussianMonotone
+open Real
+variable (opq : String → ℝ → ℝ) (ρ : String → ℝ)
+theorem gaussian_closed : evalR opq ρ Gen.Filters.Gaussian_k_space = exp (-(ρ "kr") ^ 2 / 2) := by
+  simp only [Gen.Filters.Gaussian_k_space]; expr_unfold; push_cast
+  simp [zpow_ofNat]
+
+/-- the window of the generated Gaussian filter as a function of its argument -/
+noncomputable def gaussW (x : ℝ) : ℝ := evalR opq (Function.update ρ "kr" x) Gen.Filters.Gaussian_k_space
+
+theorem gaussW_sq_antitone (k r1 r2 : ℝ) (hk : 0 ≤ k) (hr1 : 0 ≤ r1) (hr : r1 ≤ r2) :
+    gaussW opq ρ (r2 * k) ^ 2 ≤ gaussW opq ρ (r1 * k) ^ 2 := by
+  unfold gaussW
+  rw [gaussian_closed, gaussian_closed]
+  simp only [Function.update_self]
+  have h : (r1 * k) ^ 2 ≤ (r2 * k) ^ 2 := pow_le_pow_left₀ (by positivity) (mul_le_mul_of_nonneg_right hr hk) 2
+  exact pow_le_pow_left₀ (exp_pos _).le (exp_le_exp.mpr (by linarith)) 2
+
+/-- C04 (Gaussian filter): σ(R) is non-increasing in R for **every** non-negative tabulated spectrum (so in particular for
+    CDM-like ones), every moment order and every logarithmic grid -/
+theorem gaussian_sigma_nonincreasing (ks Ps : List ℝ) (order : Nat) (dlnk r1 r2 : ℝ) (hd : 0 ≤ dlnk)
+    (hk : ∀ k ∈ ks, 0 ≤ k) (hP : ∀ p ∈ Ps, 0 ≤ p) (hr1 : 0 ≤ r1) (hr : r1 ≤ r2) :
+    sigmaDisc (gaussW opq ρ) ks Ps order dlnk r2 ≤ sigmaDisc (gaussW opq ρ) ks Ps order dlnk r1 :=
+  sigmaDisc_antitone _ ks Ps order dlnk r1 r2 hd hk hP (fun k hkm => gaussW_sq_antitone opq ρ k r1 r2 (hk k hkm) hr1 hr)
+end GaussianMonotone
+
 end Hmf.C04
